@@ -346,8 +346,47 @@ let cmd_firstsets () =
 let cmd_sdt () =
   iter_lines (fun line -> print_endline (hex_encode (sdt_val (hex_decode (String.trim line)))))
 
+(* gen <file>: the Gallina model of gocc's LR(1) generator. File: line1 "nn ntm terr", line2 productions "lhs:sym sym;lhs:;..."
+   (sym = T<n> | N<n>), line3 symbols, line4 la_order, line5 p_acts (0/1).  Prints KIND then per state:
+   "I p,k,la p,k,la ... | T sym>state ... | A codes | R 0/1 | G gotos" *)
+let cmd_gen file =
+  let ic = open_in file in
+  let l1 = words (input_line ic) in
+  let psym w = let n = nat_of_int_tr (int_of_string (String.sub w 1 (String.length w - 1))) in if w.[0] = 'T' then T n else NT n in
+  let prods = List.filter (fun x -> x <> "") (String.split_on_char ';' (input_line ic)) in
+  let g = List.map (fun p -> match String.split_on_char ':' p with
+    | [l; b] -> { lhs = nat_of_int_tr (int_of_string (String.trim l)); rhs = List.map psym (words b) }
+    | _ -> failwith "prod") prods in
+  let symbols = List.map psym (words (input_line ic)) in
+  let la = List.map (fun w -> nat_of_int_tr (int_of_string w)) (words (input_line ic)) in
+  let pacts = List.map (fun w -> w = "1") (words (input_line ic)) in
+  close_in ic;
+  let (nn, ntm, terr) = match l1 with [a; b; c] -> (int_of_string a, int_of_string b, int_of_string c) | _ -> failwith "hdr" in
+  let skey = function T a -> "T" ^ string_of_int (int_of_nat a) | NT a -> "N" ^ string_of_int (int_of_nat a) in
+  let enc = function None -> 0 | Some Accept -> 1 | Some (Shift s) -> 2 + 2 * int_of_nat s | Some (Reduce p) -> 3 + 2 * int_of_nat p in
+  let show_auto an tr tbo =
+    List.iteri (fun i its ->
+      let trow = List.nth tr i in
+      let ts = List.sort_uniq compare (List.map (fun (x, t) -> skey x ^ ">" ^ string_of_int (int_of_nat t)) trow) in
+      let base = Printf.sprintf "I %s | T %s" (String.concat " " (List.map (fun ((p, k), la) ->
+        Printf.sprintf "%d,%d,%d" (int_of_nat p) (int_of_nat k) (int_of_nat la)) its)) (String.concat " " ts) in
+      match tbo with
+      | Some tb -> let r = List.nth tb.t_states i in
+        print_endline (Printf.sprintf "%s | A %s | R %d | G %s" base (String.concat " " (List.map (fun a -> string_of_int (enc a)) r.s_actions))
+          (if r.s_recover then 1 else 0) (String.concat " " (List.map (fun z -> string_of_int (int_of_z z)) r.s_gotos)))
+      | None -> print_endline base) an.a_items in
+  match gen_run g (nat_of_int_tr nn) (nat_of_int_tr ntm) symbols la pacts (nat_of_int_tr terr) (nat_of_int_tr 100000) with
+  | GenOk (tb, an, tr) -> print_endline "OK"; show_auto an tr (Some tb)
+  | GenConflict (an, tr, cells) ->
+    print_endline ("CONFLICT " ^ string_of_int (List.length (List.sort_uniq compare (List.map (fun (s, _) -> int_of_nat s) cells))));
+    show_auto an tr None
+  | GenIllFormed -> print_endline "ILLFORMED"
+  | GenFirstUnstable -> print_endline "FIRSTUNSTABLE"
+  | GenFuel -> print_endline "FUEL"
+
 let () =
   match Array.to_list Sys.argv with
+  | _ :: "gen" :: file :: _ -> cmd_gen file
   | _ :: "sdt" :: _ -> cmd_sdt ()
   | _ :: "firstsets" :: _ -> cmd_firstsets ()
   | _ :: "fscan" :: _ -> cmd_fscan ()
